@@ -122,6 +122,6 @@ end LA.Auparse
 
 /-! ### the code keeps nothing between calls that the model does not have -/
 
-/-- Outside `init`, no function of package auparse writes a package-level variable, takes the address of one or calls a
+/-- Outside `init`, no function of package auparse writes a package-level variable, hands the address of one to a function or calls a
 sync/atomic method on one (regenerated list, see LA.Proofs.StateFacts): the parser is a function of its argument. -/
 theorem C05_parser_keeps_nothing_between_calls : LA.StateFacts.ofPkg "auparse" = [] := by decide
